@@ -141,7 +141,7 @@ def generate(tier, seed):
     # algorithm has to grow).  The exact coordinates would overflow TLC's integers, so these scenarios are judged on a
     # piecewise affine image with small integer vertices (refine_common.ModelMap): apex (far, far, far) -> (1, 1, 1).
     n0 = len(recs)
-    for far in ((40, 100, 400) if thorough else (48,)):
+    for far in ((40, 44, 48) if thorough else (48,)):
         P = np.array([[0, 0, 0], [1, 0, 0], [0, 1, 0], [0, 0, 1], [far, far, far]], dtype=float).T
         T = np.array([[0, 1, 2, 3], [1, 2, 3, 4]]).T
         add('tet', 'MeshTet1', P, T, [(0,), (1,)] if not thorough else [(0,), (1,), (0, 1)])
@@ -182,6 +182,12 @@ def run(ctx):
         c13_model.run_models(ctx)
     recs = generate(ctx.tier, ctx.seed)
     scs = [scenario(f'C13-{k}', r) for k, r in enumerate(recs)]
+    nj = 0
+    for sc in scs:                                      # steps whose exact image is beyond TLC's integer range (counted)
+        nj += sum(1 for e in sc['events'] if e.get('a') == 'NotJudged')
+        sc['events'] = [e for e in sc['events'] if e.get('a') != 'NotJudged']
+    scs = [sc for sc in scs if sc['events']]
+    ctx.notes['steps_not_judged_model_image_too_fine'] = nj
     add_event_tags(scs)
     if ctx.tier == 'thorough':
         # refinement calls made by the repository's own tests (recorded under wrappers), judged by the same clauses
@@ -204,6 +210,8 @@ def run(ctx):
 def replay(ctx, doc):
     sc = doc['scenario']
     scs = [scenario(sc['id'], sc['recipe'])]
+    for s_ in scs:
+        s_['events'] = [e for e in s_['events'] if e.get('a') != 'NotJudged']
     add_event_tags(scs)
     ctx.validate('TraceC13', scs)
     _check_harness(ctx)
